@@ -1808,6 +1808,10 @@ func (x *actorSystem) Kill(ctx context.Context, name string) error {
 	pidNode, exist := x.actors.nodeByName(name)
 	if exist {
 		pid := pidNode.value()
+		if pid == nil {
+			// cleared by death watch in the meantime: the actor is already gone
+			return gerrors.NewErrActorNotFound(name)
+		}
 		return pid.Shutdown(ctx)
 	}
 
@@ -1854,6 +1858,10 @@ func (x *actorSystem) ReSpawn(ctx context.Context, name string) (*PID, error) {
 	node, exist := x.actors.nodeByName(name)
 	if exist {
 		pid := node.value()
+		if pid == nil {
+			// cleared by death watch in the meantime: the actor is already gone
+			return nil, gerrors.NewErrActorNotFound(name)
+		}
 		if err := pid.Restart(ctx); err != nil {
 			return nil, fmt.Errorf("failed to restart actor=%s: %w", pid.ID(), err)
 		}
@@ -2004,7 +2012,8 @@ func (x *actorSystem) ActorOf(ctx context.Context, actorName string) (*PID, erro
 	// dominated SendAsync/SendSync throughput under high parallelism.
 	if pidnode, ok := x.actors.nodeByName(actorName); ok {
 		pid := pidnode.value()
-		if pid.IsStopping() {
+		// value() is nil when death watch cleared the node after the lookup released the tree lock
+		if pid == nil || pid.IsStopping() {
 			return nil, gerrors.NewErrActorNotFound(actorName)
 		}
 		return pid, nil
@@ -2080,7 +2089,8 @@ func (x *actorSystem) ActorExists(ctx context.Context, actorName string) (bool, 
 	// check locally
 	if node, ok := x.actors.nodeByName(actorName); ok {
 		pid := node.value()
-		if pid.IsStopping() {
+		// value() is nil when death watch cleared the node after the lookup released the tree lock
+		if pid == nil || pid.IsStopping() {
 			return false, nil
 		}
 		return true, nil
